@@ -482,6 +482,7 @@ func init() {
 		r.importing = "C03"
 		checkASTIntegrity(r, prog, a, "c03")
 		checkTreeHandedOver(r, prog, a, "c03")
+		checkConnectives(r, prog, a, "c03") // "each equals `not (…)` around its counterpart": `not` errs exactly when its operand does
 		r.importing = ""
 		g := loadGrammars(r, prog)
 		if g != nil {
